@@ -22,7 +22,7 @@ def check(run, prog, tier):
     run.explanation = (
         "Constant folding of the pathway-type / process / signal tables (partition check), "
         "statement-level rules on the nine view helpers, finite-configuration evaluation (exhaustive "
-        "over 5 storage resolutions x 4 data-type classes x tag present/absent) of the getter and "
+        "over 5 storage resolutions x 4 data-type classes x tag in {None, falsy, truthy}) of the getter and "
         "setter decision trees of twodspectrum_dictionary combined with the branches of _add_data, "
         "and table rules on the resolution conversion paths.")
     run.trusted_base = ["dict/list semantics of the storage", "numpy += on arrays adds element-wise"]
@@ -184,10 +184,15 @@ def _eval_test(test, cfg, names):
         return cfg.cls == "total"
     if t == "self.current_dtype != _total":
         return cfg.cls != "total"
+    # tag domain: None / a falsy tag such as 0 or "" / a truthy tag
     if t == "self.current_tag is not None":
-        return cfg.tag
+        return cfg.tag is not None
     if t == "self.current_tag is None":
-        return not cfg.tag
+        return cfg.tag is None
+    if t == "self.current_tag":
+        return cfg.tag == "truthy"
+    if t == "not self.current_tag":
+        return cfg.tag != "truthy"
     if t == "self.storage_initialized":
         return True
     if t in ("not ini", "not self.storage_initialized"):
@@ -267,7 +272,7 @@ def rule_C(run, prog, m):
     getter = [n for n in inner if len(n.args.args) == 1][0]
     setter = [n for n in inner if len(n.args.args) == 2][0]
     table_g, table_s = {}, {}
-    for res, cls, tag in itertools.product(RES, CLASSES, (False, True)):
+    for res, cls, tag in itertools.product(RES, CLASSES, (None, "falsy", "truthy")):
         cfg = _Cfg(res, cls, tag)
         table_g[(res, cls, tag)] = _classify_get(_first_effect(getter.body, cfg, "get"))
         eff = _first_effect(setter.body, cfg, "set")
@@ -319,11 +324,11 @@ def rule_C(run, prog, m):
             if RES.index(A) > RES.index(S):
                 continue
             req, tag_req, tag_forb = branches[A]
-            tag = bool(tag_req)
-            g = table_g[(S, req, tag)]
-            s = table_s[(S, req, tag)]
-            sound = (g == "cell" and s == "store") or s == "raise" or g == "raise"
-            run.obligation(rid, "TwoDSpectrumBase._add_data", sound, key="rmw:storage=%s,add=%s" % (S, A),
+            for tag in ((None,) if not tag_req else ("falsy", "truthy")):
+              g = table_g[(S, req, tag)]
+              s = table_s[(S, req, tag)]
+              sound = (g == "cell" and s == "store") or s == "raise" or g == "raise"
+              run.obligation(rid, "TwoDSpectrumBase._add_data", sound, key="rmw:storage=%s,add=%s,tag=%s" % (S, A, tag),
                            message="adding %s-level data to %s-level storage reads %s and then %s: the sum over "
                                    "several stored cells is written back as one more cell, so the total read back "
                                    "is no longer the sum of what was added"
